@@ -1,14 +1,99 @@
-import PtVerif.Model.Grammar
+import PtVerif.Proofs.GrammarYield
+import PtVerif.Proofs.GrammarDefined
+import PtVerif.Proofs.GrammarDen
 import PtVerif.Model.GrammarTable
-/-! # C01 — a formula string denotes what the grammar says (first cut) -/
+/-!
+# C01 — a formula string denotes exactly the composition its documented grammar says;
+malformed strings are rejected
+
+Model: `Model/Grammar.lean` (`parse`: the pyparsing grammar of `formula_grammar`, combinator for
+combinator, table as a parameter) – tied to formulas.py on every run by
+`harness/ptv/props/C01.py`.  Specification: `Model/GrammarSpec.lean` (derivations of the documented
+grammar, their yield `text`, the structure `items` they denote, the documented reading `den`, and
+`canon`, the side conditions that pick the greedy reading where the documented grammar is
+ambiguous).
+
+All theorems hold for every table (public or private) and every nesting depth.
+-/
 namespace PtVerif.C01
 open PtModel PtModel.Grammar
 
-/-- the empty string is the empty formula, for every table -/
-theorem parse_empty (T : Table) : parse T [] = .ok (.nil, none) := by
-  simp [parse, fuelFor, pComposite, pGroup, pImplicit, pCount, pElements, pElement, pSymbol, skipWs, pLit]
+/-- **every string of the documented grammar parses to what it denotes**: for every table, every
+    canonical derivation (elements with isotope / ion tags and integer or decimal counts, implicit
+    and parenthesised groups nested to any depth, `+` / blank / empty separators, blanks wherever
+    the implementation tolerates them, an optional density tag) whose elements the table defines:
+    the parser returns exactly the nested structure and density tag the derivation denotes. -/
+theorem parse_yield (T : Table) (D : Compound) (hc : D.canon = true) (r : Items Cnt × Option Dens)
+    (hr : D.result T = some r) : parse T D.text = .ok r := by
+  rw [Grammar.parse_yield T D hc, hr]
 
-/-- data fact over the regenerated table: no two entries share a symbol -/
-theorem genTable_symbols_nodup : (genTable.map (·.sym)).Nodup := by decide +kernel
+/-- **a string that names a symbol, isotope or charge the table does not define is rejected**
+    (the parse action's exception; never a formula), wherever in the derivation it occurs -/
+theorem undefined_rejected (T : Table) (D : Compound) (hc : D.canon = true) (hr : D.result T = none) :
+    parse T D.text = .error .abort := by
+  rw [Grammar.parse_yield T D hc, hr]
+
+/-- the structure a derivation denotes has the composition the grammar documents: *a count
+    multiplies everything in its group and repeated atoms add* (`den`), atom by atom … -/
+theorem yield_denotes (T : Table) (d : Comp) (fs : Items Cnt) (h : d.items T = some fs) (a : Atom) :
+    (ratItems fs).cnt a = d.den T a := comp_den T a d fs h
+
+/-- … and that is what `Formula.atoms` serves for it (C02's `_count_atoms`) -/
+theorem yield_atoms (T : Table) (d : Comp) (fs : Items Cnt) (h : d.items T = some fs) (a : Atom) :
+    lookupD (ratItems fs).atoms a = d.den T a := by
+  rw [Items.atoms_lookup, yield_denotes T d fs h a]
+
+/-- **every atom of an accepted formula is defined in the table**: for every table and *every*
+    string, if the parser returns a formula then each of its atoms, at every depth, is an entry of
+    the table with a mass number the entry names or lists and a charge it lists -/
+theorem parse_atoms_defined (T : Table) (s : List Char) (fs : Items Cnt) (d : Option Dens)
+    (h : parse T s = .ok (fs, d)) : AllAtoms (Defined T) fs := parse_defined T s fs d h
+
+/-- the fuel of the model is no restriction: any larger fuel gives the same result (success,
+    failure or exception), so `parse` is the fuel-free recursive descent -/
+theorem fuel_is_no_restriction (T : Table) (s : List Char) (n : Nat) (h : fuelFor s ≤ n) :
+    pComposite T n s = pComposite T (fuelFor s) s := pComposite_fuel T s n h
+
+/-- the empty string (or blanks) is the empty formula -/
+theorem parse_blank (T : Table) (b : List Char) (hb : AllWs b) : parse T b = .ok (.nil, none) :=
+  Grammar.parse_blank T b hb
+
+/-- data fact over the regenerated table: every entry is served under its own symbol -/
+theorem genTable_wf : genTable.wf = true := by decide +kernel
+
+/-! ## non-vacuity: canonical derivations with every feature, and what the theorems say of them -/
+
+def elH2 : Elem := ⟨[], ['H'], none, none, .whole ['2']⟩
+def elO (pre : List Char) : Elem := ⟨pre, ['O'], none, none, .none⟩
+def elO18 : Elem := ⟨[], ['O'], some ⟨[' '], ['1', '8'], []⟩, some ⟨[], ['2'], true, [' ']⟩, .fract [] ['5']⟩
+def elXx : Elem := ⟨[], ['X', 'x'], none, none, .none⟩
+def elFe99 : Elem := ⟨[], ['F', 'e'], some ⟨[], ['9', '9'], []⟩, none, .none⟩
+
+/-- `2H2 O` – one implicit group with a leading count (blanks do not end it) -/
+def water2 : Compound := .full [] (.one (.implicit (.whole ['2']) [elH2, elO [' ']])) none []
+
+/-- `( H2O[ 18]{2- }.5 )3 + 2H2 O@1.5 n` -/
+def mixed : Compound :=
+  .full []
+    (.more (.explicit [] [' '] (.one (.implicit .none [elH2, elO18])) [' '] [] (.whole ['3']))
+      ⟨[' '], true, [' ']⟩ (.one (.implicit (.whole ['2']) [elH2, elO [' ']])))
+    (some ⟨[], .fract ['1'] ['5'], [' '], some true⟩) [' ']
+
+example : water2.canon = true ∧ water2.text = "2H2 O".toList := by decide +kernel
+example : mixed.canon = true ∧ mixed.text = "( H2O[ 18]{2- }.5 )3 + 2H2 O@1.5 n ".toList := by
+  decide +kernel
+example : water2.result genTable =
+    some (.cons ⟨2, 0⟩ (.group (.cons ⟨2, 0⟩ (.atom ⟨1, 0, 0⟩) (.cons ⟨1, 0⟩ (.atom ⟨8, 0, 0⟩) .nil))) .nil, none) := by
+  decide +kernel
+example : (mixed.result genTable).isSome = true := by decide +kernel
+
+/-- an unknown symbol, an undefined isotope: `result = none`, hence rejected by `undefined_rejected` -/
+def badSym : Compound := .full [] (.one (.implicit .none [elH2, elXx])) none []
+def badIso : Compound := .full [] (.one (.explicit [] [] (.one (.implicit .none [elFe99])) [] [] (.whole ['2']))) none []
+example : badSym.canon = true ∧ badSym.text = "H2Xx".toList ∧ badSym.result genTable = none := by decide +kernel
+example : badIso.canon = true ∧ badIso.text = "(Fe[99])2".toList ∧ badIso.result genTable = none := by
+  decide +kernel
+example : parse genTable "H2Xx".toList = .error .abort :=
+  undefined_rejected genTable badSym (by decide +kernel) (by decide +kernel)
 
 end PtVerif.C01
